@@ -198,7 +198,8 @@ impl Inst for DefaultHasherView {
     }
 }
 
-const NAMES: [&str; 4] = ["a", "bb", "a-long-key-that-owns-more-heap", "dddd"];
+// the second key is the empty string: its borrowed form is a zero-sized value
+const NAMES: [&str; 4] = ["a", "", "a-long-key-that-owns-more-heap", "dddd"];
 
 pub struct StringVec;
 impl Inst for StringVec {
@@ -507,7 +508,7 @@ fn alphabet<T: Inst>() -> Vec<IOp> {
 
 const NONE: (u32, u32) = (u32::MAX, u32::MAX);
 const COUNT: u32 = u32::MAX - 1;
-pub const NPATS: u8 = 10;
+pub const NPATS: u8 = 16;
 
 /// The iterator is taken by value so that the provided methods a type may
 /// override (last, count, nth, rev) are really the type's own.
@@ -517,7 +518,8 @@ pub const NPATS: u8 = 10;
 /// from both ends until they meet, then last; 6: next_back, count; 7: nth(1),
 /// next_back, nth(0), count; 8: next, rev; 9: exhausted from the back, then last.
 fn drive<X, I: DoubleEndedIterator<Item = X>>(mut it: I, pat: u8, n: usize, f: impl Fn(X) -> (u32, u32)) -> Vec<(u32, u32)> {
-    let g = |x: Option<X>| x.map(&f).unwrap_or(NONE);
+    let f = &f;
+    let g = |x: Option<X>| x.map(f).unwrap_or(NONE);
     match pat {
         0 => (0..n + 2).map(|_| g(it.next())).collect(),
         1 => (0..n + 2).map(|_| g(it.next_back())).collect(),
@@ -548,9 +550,83 @@ fn drive<X, I: DoubleEndedIterator<Item = X>>(mut it: I, pat: u8, n: usize, f: i
             v.extend(it.rev().map(&f));
             v
         }
-        _ => {
+        9 => {
             let mut v: Vec<(u32, u32)> = (0..n + 1).map(|_| g(it.next_back())).collect();
             v.push(g(it.last()));
+            v
+        }
+        // 10..=15: the internal-iteration methods (fold, rfold, try_fold, try_rfold through
+        // for_each / rev / find / rfind); a runaway iterator is cut off by a panic
+        10 => {
+            let mut v = vec![g(it.next())];
+            it.rfold((), |(), x| {
+                v.push(f(x));
+                assert!(v.len() <= 4 * n + 8, "iterator yields without end");
+            });
+            v
+        }
+        11 => {
+            let mut v: Vec<(u32, u32)> = (0..n + 1).map(|_| g(it.next())).collect();
+            it.rev().for_each(|x| {
+                v.push(f(x));
+                assert!(v.len() <= 4 * n + 8, "iterator yields without end");
+            });
+            v
+        }
+        12 => {
+            let mut v: Vec<(u32, u32)> = (0..n + 1).map(|_| g(it.next_back())).collect();
+            it.for_each(|x| {
+                v.push(f(x));
+                assert!(v.len() <= 4 * n + 8, "iterator yields without end");
+            });
+            v
+        }
+        13 => {
+            let mut v = vec![g(it.next_back())];
+            let mut seen = 0usize;
+            let found = it.find(|_| {
+                seen += 1;
+                assert!(seen <= 4 * n + 8, "iterator yields without end");
+                false
+            });
+            v.push((COUNT, seen as u32));
+            v.push(g(found));
+            v.push(g(it.next()));
+            v.push(g(it.next_back()));
+            v
+        }
+        14 => {
+            let mut v = vec![g(it.next())];
+            let mut seen = 0usize;
+            let found = it.rfind(|_| {
+                seen += 1;
+                assert!(seen <= 4 * n + 8, "iterator yields without end");
+                seen == 2
+            });
+            v.push((COUNT, seen as u32));
+            v.push(g(found));
+            v.push(g(it.next_back()));
+            v.push(g(it.next()));
+            v
+        }
+        _ => {
+            // met in the middle, then internal iteration from both sides
+            let mut v = vec![];
+            for i in 0..n + 1 {
+                let x = if i % 2 == 0 { it.next() } else { it.next_back() };
+                let done = x.is_none();
+                v.push(g(x));
+                if done {
+                    break;
+                }
+            }
+            let mut k = 0usize;
+            let c = it.fold(0u32, |a, _| {
+                k += 1;
+                assert!(k <= 4 * n + 8, "iterator yields without end");
+                a + 1
+            });
+            v.push((COUNT, c));
             v
         }
     }
@@ -1251,8 +1327,14 @@ fn uncode(c: &[u8]) -> Option<IOp> {
 
 /// record layout: [mode, fault kind, fault idx lo, fault idx hi, name len, name.., label len, label.., hk, tight, 3 bytes per operation of prefix ++ [255,0,0] ++ sequence]
 fn record(job: &Job, name: &str, seq: &[IOp], fault: Option<(Cb, u32)>) -> Vec<u8> {
+    record_mode(job, job.mode, name, seq, fault)
+}
+
+/// mode 0: executing the sequence (differential); 1: fault injection; 2: the iterator
+/// patterns of the state check that follows the sequence
+fn record_mode(job: &Job, mode: u8, name: &str, seq: &[IOp], fault: Option<(Cb, u32)>) -> Vec<u8> {
     let mut v = Vec::with_capacity(16 + name.len() + 3 * (job.prefix.len() + seq.len() + 1));
-    v.push(job.mode);
+    v.push(mode);
     v.push(fault.map(|f| f.0 as u8).unwrap_or(255));
     let idx = fault.map(|f| f.1).unwrap_or(0) as u16;
     v.extend_from_slice(&idx.to_le_bytes());
@@ -1312,6 +1394,9 @@ pub fn describe_raw(job_id: u64, b: &[u8]) -> Vec<String> {
     if b.first() == Some(&1) && b.get(1) != Some(&255) {
         out.push(format!("with a panic injected into callback kind {} invocation #{}", b[1], u16::from_le_bytes([b[2], b[3]])));
     }
+    if b.first() == Some(&2) {
+        out.push("while the borrowing iterators of the resulting state were driven through the sixteen patterns".to_string());
+    }
     out
 }
 
@@ -1340,6 +1425,9 @@ pub fn owned_by(raw: &str) -> (Props, Vec<String>) {
     if b.first() == Some(&1) {
         props = p(16);
     }
+    if b.first() == Some(&2) {
+        props = p(12) | p(5) | p(6) | p(7);
+    }
     (props, describe_raw(job.parse().unwrap_or(0), &b))
 }
 
@@ -1350,6 +1438,19 @@ fn raw_key(job: &Job, rec: &[u8]) -> String {
 /// Publishes what is about to run; returns the reason if an earlier attempt died on exactly this.
 fn announce(job: &Job, name: &str, seq: &[IOp], fault: Option<(Cb, u32)>) -> Option<String> {
     let rec = record(job, name, seq, fault);
+    if !job.skips.is_empty() {
+        let k = raw_key(job, &rec);
+        if let Some((_, why)) = job.skips.iter().find(|x| x.0 == k) {
+            return Some(why.clone());
+        }
+    }
+    crate::contain::mark_raw(4, job.id as u64, &rec);
+    None
+}
+
+/// The same for the iterator patterns of the state check.
+fn announce_patterns(job: &Job, name: &str, seq: &[IOp]) -> Option<String> {
+    let rec = record_mode(job, 2, name, seq, None);
     if !job.skips.is_empty() {
         let k = raw_key(job, &rec);
         if let Some((_, why)) = job.skips.iter().find(|x| x.0 == k) {
@@ -1548,21 +1649,27 @@ fn run_seq<T: Inst>(job: &Job, sm: [usize; 5], seq: &[IOp], out: &mut InstResult
             }
         }
         if got_it == want && seq.len() <= 2 {
+            if let Some(why) = announce_patterns(job, T::NAME, seq) {
+                problems.push((p(12) | p(5), "C12.hang", format!("driving the borrowing iterators of this state did not come back in an earlier attempt: {why}")));
+            } else {
             let n = want.len();
             for pat in 0..NPATS {
                 let model: std::collections::VecDeque<(u32, u32)> = want.iter().copied().collect();
                 let e = drive(model.clone().into_iter(), pat, n, |x| x);
-                let a = drive(c.iter(), pat, n, |(k, v)| (T::kid(k), T::vtag(v)));
                 let ek = drive(model.clone().into_iter(), pat, n, |x| (x.0, 0));
-                let ak = drive(c.keys(), pat, n, |k| (T::kid(k), 0));
                 let ev = drive(model.into_iter(), pat, n, |x| (0, x.1));
-                let av = drive(c.values(), pat, n, |v| (0, T::vtag(v)));
+                let runaway = vec![(COUNT, COUNT)];
+                let guard = |r: std::thread::Result<Vec<(u32, u32)>>| r.unwrap_or_else(|_| runaway.clone());
+                let a = guard(std::panic::catch_unwind(std::panic::AssertUnwindSafe(|| drive(c.iter(), pat, n, |(k, v)| (T::kid(k), T::vtag(v))))));
+                let ak = guard(std::panic::catch_unwind(std::panic::AssertUnwindSafe(|| drive(c.keys(), pat, n, |k| (T::kid(k), 0)))));
+                let av = guard(std::panic::catch_unwind(std::panic::AssertUnwindSafe(|| drive(c.values(), pat, n, |v| (0, T::vtag(v))))));
                 for (what, a, e) in [("iter()", a, e), ("keys()", ak, ek), ("values()", av, ev)] {
                     if a != e {
-                        problems.push((p(12) | p(5), "C12.sequence", format!("{what} driven by pattern {pat} (0 front, 1 back, 2 alternating, 3 next+last, 4 exhausted+last, 5 met in the middle+last, 6 next_back+count, 7 nth+count, 8 next+rev, 9 exhausted from the back+last) yields {a:?}, expected {e:?} ((u32::MAX, u32::MAX) = None)")));
+                        problems.push((p(12) | p(5), "C12.sequence", format!("{what} driven by pattern {pat} (0 front, 1 back, 2 alternating, 3 next+last, 4 exhausted+last, 5 met in the middle+last, 6 next_back+count, 7 nth+count, 8 next+rev, 9 exhausted from the back+last, 10 next+rfold, 11 exhausted+rev().for_each, 12 exhausted from the back+for_each, 13 next_back+find, 14 next+rfind, 15 met in the middle+fold) yields {a:?}, expected {e:?} ((u32::MAX, u32::MAX) = None; [(COUNT, COUNT)] = the iterator panicked or did not stop)")));
                         break;
                     }
                 }
+            }
             }
         }
         let cls = if run.leaky { "inst:leaky" } else { outcome_class(&act) };
